@@ -70,6 +70,9 @@ def gen_item(rng, depth, budget):
         mn = rng.choice([mx, 0, 1, rng.randint(0, mx), max(0, mx - rng.randint(0, 7))])
         if mx < 50 and alt_width(a) > 1:
             mn = mx = rng.randint(0, 3)
+        if mx >= 50 and alt_width(a) > 3:
+            # the helper rules of the factored scheme repeat the operand up to 5 times: width ** 5 alternatives
+            mn, mx = rng.randint(0, 2), 2
     else:
         mn = rng.randint(0, 3)
         mx = mn if rng.random() < 0.4 else mn + rng.randint(0, 3)
@@ -149,7 +152,7 @@ def lark_rules(text):
         m = HELPER.match(name)
         if not m:
             # a helper of a kind the model does not know: keep it (the structural comparison decides)
-            return 100000 + unknown.setdefault(name, len(unknown))
+            return 900 + unknown.setdefault(name, len(unknown))
         return int(m.group(1)) + 1
     per_origin = {}
     for r in rules:
@@ -171,6 +174,12 @@ def lark_rules(text):
 
 def coq_rules(rs):
     return L(['(%d, %s)' % (o, L(syms)) for o, syms in rs])
+
+
+def coq_rules_text(rs):
+    """the rules as a Coq string for CompileCheck.parse_rules"""
+    return '"%s"' % ''.join('%d:%s;' % (o, ''.join(('t%s ' if s[0] == 'T' else 'n%s ') % s.split()[1] for s in syms))
+                            for o, syms in rs)
 
 
 # ---- the property's own oracle on the source expression ------------------------------------------
@@ -366,7 +375,7 @@ def sample_operand(x, rng):
 
 
 def shared_words(x, nsites, rng):
-    ks = range(0, 8) if nsites == 2 else (0, 1, 2, 3, 5, 6)
+    ks = range(0, 8) if nsites == 2 else (0, 1, 2, 5, 6)
     import itertools
     for counts in itertools.product(ks, repeat=nsites):
         yield counts, 'd'.join(''.join(sample_operand(x, rng) for _ in range(k)) for k in counts)
